@@ -103,7 +103,7 @@ Lemma F_Nlen : Nlen F = 352 + ds + Nlen (fp_ct p) + Nlen (fp_ix p) + Nlen (fp_zb
 Proof. pose proof (asm_Nlen _ _ _ _ _ _ _ _ _ _ _ _ _ _ HA) as H. cbv zeta in H. exact H. Qed.
 
 Lemma data_is_pieces : data = map psec (pieces_of ips outs).
-Proof. exact (core_data fp o sizes inp ids outs sum data F Hcol Hopts Hsize). Qed.
+Proof. unfold ips. eapply core_data; eassumption. Qed.
 
 Lemma F_readable : readable F.
 Proof.
@@ -172,16 +172,16 @@ Proof.
   destruct HA as (Hct & _). destruct (chrom_tree_inv _ _ _ Hct) as [_ Ect]. rewrite Ect in HC.
   rewrite (has_at_slice_w bs (352 + ds) (ct_header (Nlen ids) (maxlen ids)) 32 (has_at_prefix _ _ _ _ HC) eq_refl).
   cbn [rdo rbind].
-  pose proof (core_maxlen fp o sizes inp ids outs sum data zoom_part dco F p Hcol HA Hinp Hsize) as Hml.
+  assert (Hml : N.of_nat (maxlen ids) < U32) by (eapply core_maxlen; eassumption).
   destruct (ct_header_fields (Nlen ids) (maxlen ids) Hml) as (F1 & F2 & F3).
   rewrite F1, F2, F3, N.eqb_refl. cbn [negb]. change (8 =? 8) with true. cbn [negb]. rewrite Nat2N.id.
   apply has_at_suffix in HC. change (Nlen (ct_header (Nlen ids) (maxlen ids))) with 32 in HC.
-  destruct (core_runs fp o sizes inp ids outs sum data Hcol Hinp) as (Eids & _).
+  assert (Eids : ids = number 0 (map fst (runs inp))) by (eapply core_runs; eassumption).
   rewrite (read_chrom_block_ok sizes bs (352 + ds + 32) (maxlen ids) ids (length bs) HC).
   - unfold the_info, names. rewrite Ez, <- Eids. reflexivity.
-  - destruct Hinp as (_ & _ & Hn & _). rewrite Eids.
-    unfold Nlen in *. rewrite number_length. unfold names. rewrite map_length. exact Hn.
-  - exact (core_chroms_ok fp o sizes inp ids outs sum data F Hcol Hinp Hsize).
+  - assert (Hn : Nlen (runs inp) < U16) by (unfold input_ok in Hinp; decompose [and] Hinp; assumption).
+    rewrite Eids. unfold Nlen in *. rewrite number_length, map_length. exact Hn.
+  - eapply core_chroms_ok; eassumption.
 Qed.
 
 (* a range query, as in BigWigFileRoundTrip.core_query *)
@@ -189,13 +189,18 @@ Theorem img_query (infl : list N -> list N) c vs s e : In (c, vs) (runs inp) ->
   bw_interval infl bs the_info c s e = Ok (clip_filter s e vs).
 Proof.
   intros Hin.
-  destruct (core_runs fp o sizes inp ids outs sum data Hcol Hinp) as (Eids & HF & Eouts).
-  pose proof Hinp as (Hnd & _). pose proof Hopts as (Hb & Hi).
-  pose proof (core_wf fp o sizes inp ids outs sum data Hcol Hinp) as Hwf.
-  pose proof (core_ids_sorted fp o sizes inp ids outs sum data Hcol Hinp) as Hsorted.
-  pose proof (core_pieces_ok fp o sizes inp ids outs sum data F Hcol Hopts Hinp Hsize) as Hpok.
+  assert (Hruns : ids = number 0 (map fst (runs inp)) /\ Forall2 (run_out sizes) (runs inp) outs
+                  /\ map (fun c => (co_name c, co_id c)) outs = number 0 (map fst (runs inp)))
+    by (eapply core_runs; eassumption).
+  destruct Hruns as (Eids & HF & Eouts).
+  assert (Hnd : NoDup (map fst (runs inp))) by (eapply collect_grouped; eassumption).
+  pose proof Hopts as (Hb & Hi).
+  assert (Hwf : Forall (fun c => exists len, wf_vals len (co_vals c)) outs) by (eapply core_wf; eassumption).
+  assert (Hsorted : StronglySorted N.lt (map co_id outs)) by (eapply core_ids_sorted; eassumption).
+  assert (Hpok : Forall piece_ok (pieces_of ips outs)) by (unfold ips; eapply core_pieces_ok; eassumption).
   destruct (Forall2_in_l _ _ _ _ HF Hin) as [c0 [Hc0 (Hn0 & Hv0 & Hl0 & Hk0)]]. cbn [fst snd] in *.
-  pose proof (core_out_in fp o sizes inp ids outs sum data Hcol Hinp c0 Hc0) as Hid. rewrite Hn0 in Hid.
+  assert (Hid : In (co_name c0, co_id c0) (number 0 (map fst (runs inp)))) by (eapply core_out_in; eassumption).
+  rewrite Hn0 in Hid.
   unfold bw_interval, chrom_id. cbn [the_info i_chroms i_hdr].
   fold names in Hid. rewrite (find_chrom sizes names 0 c (co_id c0) Hnd Hid). cbn [ci_of ci_id snd rbind].
   (* the index header *)
@@ -214,9 +219,8 @@ Proof.
     assert (Hp : In (co_id c0, ch) (pieces_of ips outs)).
     { unfold pieces_of. apply in_flat_map. exists c0. split; [exact Hc0|]. rewrite Ech. left; reflexivity. }
     rewrite E in Hp. destruct Hp. }
-  pose proof (core_secs_sorted fp o sizes inp ids outs sum data F Hcol Hopts Hinp Hsize) as Hss.
-  pose proof (core_secs_ok fp o sizes inp ids outs sum data zoom_part dco F p Hcol HA Hopts Hinp Hsize) as Hso.
-  fold ips in Hss, Hso. fold secs in Hss, Hso.
+  assert (Hss : sorted_starts (map sect_span secs)) by (unfold secs, ips; eapply core_secs_sorted; eassumption).
+  assert (Hso : Forall sect_ok secs) by (unfold secs, ips; eapply core_secs_ok; eassumption).
   destruct (search_bytes_eq_scan (o_bs o) (o_ips o) (352 + ds + Nlen (fp_ct p)) secs Hb Hne Hss Hso)
     as [ix' [lv' [Hw Hs]]].
   rewrite Hix in Hw. apply Ok_inj in Hw. inversion Hw; subst ix' lv'; clear Hw.
